@@ -18,6 +18,8 @@ struct killed
 {
 };
 
+constexpr std::size_t MAXD = 192;   // largest number of dimensions the scripts handle
+
 struct AddRec
 {
     std::uint32_t dist = 0;
@@ -80,7 +82,7 @@ struct Ctx
     std::uint64_t discarded = 0;  // raw outputs discarded
     bool counting = false;        // only count while an integrator is running
     int genmode = 0;              // 0 hash, 1 lattice
-    std::uint64_t lat_n = 0, lat_dims = 0, lat_percall = 0, lat_base = 0, lat_points = 0;
+    std::uint64_t lat_n = 0, lat_dims = 0, lat_active = 0, lat_percall = 0, lat_base = 0, lat_points = 0;
     std::vector<std::uint64_t> lat_selector;   // raw selector value per lattice block
     std::map<std::uint64_t, std::uint64_t> forced;   // engine position -> raw value
     std::uint64_t forced_hits = 0;
